@@ -1,8 +1,2017 @@
-use vcommon::{Check, serde_json::json};
+//! C20 — statistical primitives match their definitions on every input.
+//!
+//! Bounded exhaustive input sweep (no sampling): every weak ordering (tie pattern, in every
+//! arrangement in time) of up to N points, every split of it into two samples, every
+//! Benjamini-Hochberg p-vector over a fixed 9-value domain, and the exact/approximate switch-over
+//! sizes of Mann-Whitney, each compared against `reference.rs` (written from the definitions with
+//! exact integer / rational arithmetic).
+//!
+//! Replay: `VERIF_REPLAY=<file>` (or `./check C20 --replay <file>`) re-runs the single case in the
+//! file (`function` + exact input vectors) and prints expected vs. actual.
+
+mod reference;
+
+use std::collections::{BTreeMap, HashSet};
+use std::num::NonZero;
+use std::sync::Mutex;
+use std::sync::atomic::{AtomicUsize, Ordering};
+
+use cbh_stats::{
+    MannWhitneyU, SelectionCalibration, benjamini_hochberg, mann_kendall, mann_whitney_superiority,
+    mann_whitney_u_pvalue, median, median_in_place, pettitt, selection_adjusted_change_point,
+    student_t_two_sided_p, theil_sen_line,
+};
+use reference as rf;
+use reference::{MwRef, TailCache, TieClass};
+use vcommon::serde_json::{Value, json};
+use vcommon::{Check, fnv1a};
+
+// ---------------------------------------------------------------------------------------------
+// Process plumbing (no effect on what is checked): per-thread CPU clock for the cost report, and
+// allocator tuning so that the megabyte-sized count tables the exact Mann-Whitney path allocates
+// on every call are recycled from the heap instead of being mmap'ed / trimmed each time.
+// ---------------------------------------------------------------------------------------------
+
+#[repr(C)]
+struct Timespec {
+    tv_sec: i64,
+    tv_nsec: i64,
+}
+
+unsafe extern "C" {
+    fn clock_gettime(clock: i32, ts: *mut Timespec) -> i32;
+    fn mallopt(param: i32, value: i32) -> i32;
+}
+
+fn thread_cpu_seconds() -> f64 {
+    const CLOCK_THREAD_CPUTIME_ID: i32 = 3;
+    let mut ts = Timespec {
+        tv_sec: 0,
+        tv_nsec: 0,
+    };
+    // SAFETY: plain libc call writing into a properly sized, owned struct.
+    let rc = unsafe { clock_gettime(CLOCK_THREAD_CPUTIME_ID, &mut ts) };
+    if rc != 0 {
+        return 0.0;
+    }
+    ts.tv_sec as f64 + ts.tv_nsec as f64 * 1e-9
+}
+
+fn tune_allocator() {
+    const M_TRIM_THRESHOLD: i32 = -1;
+    const M_TOP_PAD: i32 = -2;
+    const M_MMAP_THRESHOLD: i32 = -3;
+    // SAFETY: mallopt only adjusts glibc malloc tunables; failure is harmless.
+    unsafe {
+        mallopt(M_MMAP_THRESHOLD, 32 << 20);
+        mallopt(M_TRIM_THRESHOLD, 1 << 30);
+        mallopt(M_TOP_PAD, 16 << 20);
+    }
+}
+
+// ---------------------------------------------------------------------------------------------
+// Tolerances (each justified where it is used)
+// ---------------------------------------------------------------------------------------------
+
+/// Exact-arithmetic reference vs. f64 result that is a handful of correctly rounded operations on
+/// exactly representable integers (counts < 2^53, rank sums, small rationals): a few ulp (1e-16)
+/// in the implementation plus one rounding in the reference. 1e-12 leaves four orders of margin
+/// while every plausible defect (wrong tail, wrong tie term, off-by-one) moves results by >= 1e-3.
+const TOL_EXACT: f64 = 1e-12;
+/// Normal-approximation p-values: `two_sided_p_from_z` documents relative error < 1e-12; the
+/// conditioning of the tail in z adds z^2 * (few ulp) <= 1e-13 inside the reportable range; the
+/// libm reference is < 1 ulp. 1e-10 leaves a 50x margin.
+const TOL_NORMAL: f64 = 1e-10;
+/// `student_t_two_sided_p` documents relative error < 1e-10 up to 1000 degrees of freedom.
+const TOL_STUDENT: f64 = 1e-9;
+
+fn close_rel(actual: f64, expected: f64, rel: f64) -> bool {
+    actual == expected || (actual - expected).abs() <= rel * actual.abs().max(expected.abs())
+}
+
+fn close_abs(actual: f64, expected: f64, rel: f64, scale: f64) -> bool {
+    actual == expected
+        || (actual - expected).abs() <= rel * scale.max(actual.abs()).max(expected.abs())
+}
+
+fn in_range(p: f64) -> bool {
+    (rf::P_FLOOR..=1.0).contains(&p)
+}
+
+// ---------------------------------------------------------------------------------------------
+// Outcome classes (anti-vacuity)
+// ---------------------------------------------------------------------------------------------
+
+macro_rules! outcomes {
+    ($($id:ident = $name:expr,)*) => {
+        #[allow(non_camel_case_types, clippy::upper_case_acronyms)]
+        #[derive(Clone, Copy)]
+        #[repr(usize)]
+        enum O { $($id,)* COUNT }
+        const OUT_NAMES: [&str; O::COUNT as usize] = [$($name,)*];
+    };
+}
+
+outcomes! {
+    MW_EXACT = "mw:exact_path",
+    MW_NORMAL = "mw:normal_path",
+    MW_EMPTY = "mw:empty_sample_none",
+    MW_P_ONE = "mw:p=1",
+    MW_P_FLOOR = "mw:p=floor(1e-15)",
+    MW_P_INTERIOR = "mw:p_interior",
+    MW_TIES = "mw:ties",
+    MW_NOTIES = "mw:noties",
+    MW_CONSTANT = "mw:constant",
+    MW_SUP_0 = "mw:superiority=0",
+    MW_SUP_1 = "mw:superiority=1",
+    MW_SUP_HALF = "mw:superiority=0.5",
+    MK_SHORT = "mk:n<3",
+    MK_ZERO_VAR = "mk:zero_variance",
+    MK_S_POS = "mk:s>0",
+    MK_S_NEG = "mk:s<0",
+    MK_S_ZERO = "mk:s=0",
+    MK_TIED = "mk:tied",
+    MK_P_FLOOR = "mk:p=floor(1e-15)",
+    PT_NONE = "pettitt:none(n<2)",
+    PT_FLAT = "pettitt:flat(K=0)",
+    PT_TIED_ARGMAX = "pettitt:several_maximisers(first_wins)",
+    PT_UNIQUE_ARGMAX = "pettitt:unique_maximiser",
+    PT_P_ONE = "pettitt:p_clamped_to_1",
+    PT_P_INTERIOR = "pettitt:p_interior",
+    PT_P_FLOOR = "pettitt:p=floor(1e-15)",
+    TS_NONE = "theil_sen:none(n<2)",
+    TS_SOME = "theil_sen:some",
+    TS_HALF_SLOPE = "theil_sen:slope_is_midpoint_of_two",
+    MED_NONE = "median:none",
+    MED_ODD = "median:odd",
+    MED_EVEN = "median:even",
+    BH_NONE = "bh:nothing_rejected",
+    BH_ALL = "bh:everything_rejected",
+    BH_SOME = "bh:some_rejected",
+    BH_RESCUED = "bh:step_up_rescues_failed_rank",
+    BH_NAN = "bh:nan_present",
+    BH_FAMILY_MATTERS = "bh:family_size_changes_mask",
+    BH_AMBIGUOUS = "bh:rounding_ambiguous(not_judged)",
+    BH_SMALL_FAMILY_PANICS = "bh:family<len_panics(documented)",
+    BH_SMALL_FAMILY_RETURNS = "bh:family<len_returns",
+    ST_DEGENERATE = "student_t:degenerate=1",
+    ST_FLOOR = "student_t:p=floor(1e-15)",
+    ST_INTERIOR = "student_t:p_interior",
+    ST_CLOSED_FORM = "student_t:closed_form_compared",
+    SEL_NONE = "selection:none",
+    SEL_SOME = "selection:some",
+    SEL_ADJUSTED_ABOVE = "selection:adjusted_p>tainted_p",
+}
+
+// ---------------------------------------------------------------------------------------------
+// Accumulator (one per job; merged in job order so the first witness is deterministic)
+// ---------------------------------------------------------------------------------------------
+
+struct Viol {
+    key: String,
+    summary: String,
+    replay: Value,
+}
+
+struct Acc {
+    evaluations: u64,
+    distinct: HashSet<u64>,
+    outcomes: [u64; O::COUNT as usize],
+    violations: Vec<Viol>,
+    viol_counts: BTreeMap<String, u64>,
+    per_family: BTreeMap<&'static str, u64>,
+    keep_per_key: u64,
+}
+
+impl Acc {
+    fn new() -> Self {
+        Self {
+            evaluations: 0,
+            distinct: HashSet::new(),
+            outcomes: [0; O::COUNT as usize],
+            violations: Vec::new(),
+            viol_counts: BTreeMap::new(),
+            per_family: BTreeMap::new(),
+            keep_per_key: 2,
+        }
+    }
+    #[inline]
+    fn out(&mut self, o: O) {
+        self.outcomes[o as usize] += 1;
+    }
+    fn fail(&mut self, key: String, summary: String, replay: Value) {
+        let n = self.viol_counts.entry(key.clone()).or_insert(0);
+        *n += 1;
+        if *n <= self.keep_per_key {
+            self.violations.push(Viol {
+                key,
+                summary,
+                replay,
+            });
+        }
+    }
+    fn family(&mut self, f: &'static str, n: u64) {
+        *self.per_family.entry(f).or_insert(0) += n;
+    }
+}
+
+// ---------------------------------------------------------------------------------------------
+// JSON encoding of f64 vectors (bit patterns are authoritative; numbers are for the reader)
+// ---------------------------------------------------------------------------------------------
+
+fn fj(v: f64) -> Value {
+    if v.is_finite() {
+        json!(v)
+    } else {
+        json!(format!("{v}"))
+    }
+}
+
+fn vec_json(x: &[f64]) -> Value {
+    json!({
+        "values": x.iter().map(|&v| fj(v)).collect::<Vec<_>>(),
+        "bits": x.iter().map(|v| format!("{:#018x}", v.to_bits())).collect::<Vec<_>>(),
+    })
+}
+
+fn parse_f64(v: &Value) -> Option<f64> {
+    match v {
+        Value::Number(n) => n.as_f64(),
+        Value::String(s) => {
+            if let Some(h) = s.strip_prefix("0x") {
+                u64::from_str_radix(h, 16).ok().map(f64::from_bits)
+            } else {
+                s.parse::<f64>().ok()
+            }
+        }
+        _ => None,
+    }
+}
+
+fn parse_vec(v: &Value) -> Option<Vec<f64>> {
+    if let Some(bits) = v.get("bits").and_then(Value::as_array) {
+        return bits.iter().map(parse_f64).collect();
+    }
+    if let Some(vals) = v.get("values").and_then(Value::as_array) {
+        return vals.iter().map(parse_f64).collect();
+    }
+    v.as_array()?.iter().map(parse_f64).collect()
+}
+
+// ---------------------------------------------------------------------------------------------
+// Concrete values for tie-pattern levels: a base map and three strictly increasing transforms
+// ---------------------------------------------------------------------------------------------
+
+const EXTREME: [f64; 16] = [
+    f64::MIN,
+    -1e300,
+    -1e100,
+    -1.0,
+    -1e-100,
+    -1e-300,
+    -5e-324,
+    0.0,
+    5e-324,
+    1e-300,
+    1e-100,
+    1.0,
+    1e100,
+    1e300,
+    1e308,
+    f64::MAX,
+];
+const MAP_NAMES: [&str; 4] = [
+    "base x=2*level-2",
+    "2x+1",
+    "x^3",
+    "extreme-magnitude (strictly increasing table)",
+];
+/// Mappings 0..3 keep the data integer-valued (exact rational reference for Theil-Sen / median).
+const INT_MAPS: usize = 3;
+
+fn map_value(mapping: usize, level: usize, k: usize) -> f64 {
+    let base = 2.0 * level as f64 - 2.0;
+    match mapping {
+        0 => base,
+        1 => 2.0 * base + 1.0,
+        2 => base * base * base,
+        3 => EXTREME[(16 - k) / 2 + level],
+        _ => unreachable!(),
+    }
+}
+
+// ---------------------------------------------------------------------------------------------
+// Per-function checks. Each compares the real function with the reference and records failures
+// with a witness-class key and a replay object holding the function name and exact inputs.
+// ---------------------------------------------------------------------------------------------
+
+fn mw_case(left: &[f64], right: &[f64]) -> Value {
+    json!({"function": "mann_whitney", "left": vec_json(left), "right": vec_json(right)})
+}
+
+fn check_mw(left: &[f64], right: &[f64], exp: &Option<MwRef>, acc: &mut Acc) {
+    check_mw_opt(left, right, exp, true, acc);
+}
+
+/// `conv`: also call the two convenience functions (they repeat the whole computation).
+fn check_mw_opt(
+    left: &[f64],
+    right: &[f64],
+    exp: &Option<MwRef>,
+    conv: bool,
+    acc: &mut Acc,
+) -> Option<(f64, f64)> {
+    acc.evaluations += 1;
+    let mw = MannWhitneyU::new(left, right);
+    let p_conv = if conv {
+        mann_whitney_u_pvalue(left, right)
+    } else {
+        mw.map_or(1.0, |m| m.two_sided_p_value())
+    };
+    let sup_conv = if conv {
+        mann_whitney_superiority(left, right)
+    } else {
+        mw.map(|m| m.superiority())
+    };
+    let result = mw.map(|m| (m.two_sided_p_value(), m.superiority()));
+    match (exp, mw) {
+        (None, None) => {
+            acc.out(O::MW_EMPTY);
+            if p_conv != 1.0 {
+                acc.fail(
+                    "mann_whitney.p_value/empty_sample".into(),
+                    format!("mann_whitney_u_pvalue with an empty sample returned {p_conv:e}, documented 1.0"),
+                    mw_case(left, right),
+                );
+            }
+            if sup_conv.is_some() {
+                acc.fail(
+                    "mann_whitney.superiority/empty_sample".into(),
+                    format!("mann_whitney_superiority with an empty sample returned {sup_conv:?}, documented None"),
+                    mw_case(left, right),
+                );
+            }
+        }
+        (Some(e), Some(a)) => {
+            let p = a.two_sided_p_value();
+            let sup = a.superiority();
+            let path = if e.exact { "exact" } else { "normal" };
+            acc.out(if e.exact { O::MW_EXACT } else { O::MW_NORMAL });
+            acc.out(match e.tie {
+                TieClass::Constant => O::MW_CONSTANT,
+                TieClass::Ties => O::MW_TIES,
+                TieClass::NoTies => O::MW_NOTIES,
+            });
+            if e.p == 1.0 {
+                acc.out(O::MW_P_ONE);
+            } else if e.p == rf::P_FLOOR {
+                acc.out(O::MW_P_FLOOR);
+            } else {
+                acc.out(O::MW_P_INTERIOR);
+            }
+            if e.sup == 0.0 {
+                acc.out(O::MW_SUP_0);
+            } else if e.sup == 1.0 {
+                acc.out(O::MW_SUP_1);
+            } else if e.sup == 0.5 {
+                acc.out(O::MW_SUP_HALF);
+            }
+            let tol = if e.exact { TOL_EXACT } else { TOL_NORMAL };
+            for (which, got) in [
+                ("MannWhitneyU::two_sided_p_value", p),
+                ("mann_whitney_u_pvalue", p_conv),
+            ] {
+                if !in_range(got) {
+                    acc.fail(
+                        format!("mann_whitney.p_value/range/{path}"),
+                        format!(
+                            "{which} = {got:e} outside [1e-15, 1] (n1={}, n2={})",
+                            left.len(),
+                            right.len()
+                        ),
+                        mw_case(left, right),
+                    );
+                } else if !close_rel(got, e.p, tol) {
+                    acc.fail(
+                        format!("mann_whitney.p_value/{path}/{}", e.tie.name()),
+                        format!(
+                            "{which} = {got:e}, definition gives {:e} ({path} path, n1={}, n2={}, tails(le,ge,total)={:?})",
+                            e.p,
+                            left.len(),
+                            right.len(),
+                            e.tails
+                        ),
+                        mw_case(left, right),
+                    );
+                }
+            }
+            for (which, got) in [
+                ("MannWhitneyU::superiority", Some(sup)),
+                ("mann_whitney_superiority", sup_conv),
+            ] {
+                let ok = got.is_some_and(|g| close_abs(g, e.sup, TOL_EXACT, 1.0));
+                if !ok {
+                    acc.fail(
+                        format!("mann_whitney.superiority/{}", e.tie.name()),
+                        format!("{which} = {got:?}, pair counting gives {:e}", e.sup),
+                        mw_case(left, right),
+                    );
+                }
+            }
+        }
+        (e, a) => {
+            acc.fail(
+                "mann_whitney.presence".into(),
+                format!(
+                    "MannWhitneyU::new returned {} but the definition says {} (n1={}, n2={})",
+                    if a.is_some() { "Some" } else { "None" },
+                    if e.is_some() { "Some" } else { "None" },
+                    left.len(),
+                    right.len()
+                ),
+                mw_case(left, right),
+            );
+        }
+    }
+    result
+}
+
+/// Swap symmetry checked directly on the implementation's own outputs.
+fn check_mw_swap(left: &[f64], right: &[f64], acc: &mut Acc) {
+    let (Some(ab), Some(ba)) = (
+        MannWhitneyU::new(left, right),
+        MannWhitneyU::new(right, left),
+    ) else {
+        return;
+    };
+    acc.evaluations += 1;
+    swap_verdict(
+        left,
+        right,
+        (ab.two_sided_p_value(), ab.superiority()),
+        (ba.two_sided_p_value(), ba.superiority()),
+        acc,
+    );
+}
+
+fn swap_verdict(left: &[f64], right: &[f64], ab: (f64, f64), ba: (f64, f64), acc: &mut Acc) {
+    let (p1, p2) = (ab.0, ba.0);
+    if !close_rel(p1, p2, TOL_NORMAL) {
+        acc.fail(
+            "mann_whitney.swap_symmetry/p_value".into(),
+            format!("p(left,right) = {p1:e} but p(right,left) = {p2:e}"),
+            mw_case(left, right),
+        );
+    }
+    let (s1, s2) = (ab.1, ba.1);
+    if !close_abs(s1 + s2, 1.0, TOL_EXACT, 1.0) {
+        acc.fail(
+            "mann_whitney.swap_symmetry/superiority".into(),
+            format!("superiority(left,right) = {s1:e} and superiority(right,left) = {s2:e} do not sum to 1"),
+            mw_case(left, right),
+        );
+    }
+}
+
+fn series_case(function: &str, x: &[f64]) -> Value {
+    json!({"function": function, "values": vec_json(x)})
+}
+
+fn check_mk(x: &[f64], exp: &rf::MkRef, tie: TieClass, acc: &mut Acc) {
+    acc.evaluations += 1;
+    let a = mann_kendall(x);
+    if exp.degenerate_short {
+        acc.out(O::MK_SHORT);
+    } else {
+        if exp.var18 <= 0 {
+            acc.out(O::MK_ZERO_VAR);
+        }
+        acc.out(if exp.s > 0 {
+            O::MK_S_POS
+        } else if exp.s < 0 {
+            O::MK_S_NEG
+        } else {
+            O::MK_S_ZERO
+        });
+        if tie != TieClass::NoTies {
+            acc.out(O::MK_TIED);
+        }
+        if exp.p == rf::P_FLOOR {
+            acc.out(O::MK_P_FLOOR);
+        }
+    }
+    // S is a sum of +-1 over pairs: an exactly representable integer, compared exactly.
+    if a.s != exp.s as f64 {
+        acc.fail(
+            format!("mann_kendall.s/{}", tie.name()),
+            format!("S = {:e}, pair counting gives {}", a.s, exp.s),
+            series_case("mann_kendall", x),
+        );
+    }
+    if !in_range(a.p_value) {
+        acc.fail(
+            "mann_kendall.p_value/range".into(),
+            format!("p = {:e} outside [1e-15, 1]", a.p_value),
+            series_case("mann_kendall", x),
+        );
+    } else if !close_rel(a.p_value, exp.p, TOL_NORMAL) {
+        acc.fail(
+            format!("mann_kendall.p_value/{}", tie.name()),
+            format!(
+                "p = {:e}, definition gives {:e} (S={}, 18*Var={} tie-corrected)",
+                a.p_value, exp.p, exp.s, exp.var18
+            ),
+            series_case("mann_kendall", x),
+        );
+    }
+}
+
+fn check_pettitt(x: &[f64], exp: &Option<rf::PettittRef>, acc: &mut Acc) {
+    acc.evaluations += 1;
+    match (pettitt(x), exp) {
+        (None, None) => acc.out(O::PT_NONE),
+        (Some(a), Some(e)) => {
+            let class = if e.argmax_count > 1 {
+                "several_maximisers"
+            } else {
+                "unique_maximiser"
+            };
+            acc.out(if e.argmax_count > 1 {
+                O::PT_TIED_ARGMAX
+            } else {
+                O::PT_UNIQUE_ARGMAX
+            });
+            if e.k == 0 {
+                acc.out(O::PT_FLAT);
+            }
+            let unclamped = 2.0
+                * (-6.0 * (e.k as f64).powi(2)
+                    / ((x.len() as f64).powi(3) + (x.len() as f64).powi(2)))
+                .exp();
+            acc.out(if unclamped > 1.0 {
+                O::PT_P_ONE
+            } else if e.p == rf::P_FLOOR {
+                O::PT_P_FLOOR
+            } else {
+                O::PT_P_INTERIOR
+            });
+            if a.index != e.index {
+                acc.fail(
+                    format!("pettitt.index/{class}"),
+                    format!(
+                        "index = {}, first maximiser of |U_t| is {} (K={})",
+                        a.index, e.index, e.k
+                    ),
+                    series_case("pettitt", x),
+                );
+            }
+            if !close_rel(a.k_statistic, e.k as f64, TOL_EXACT) {
+                acc.fail(
+                    "pettitt.k_statistic".into(),
+                    format!("K = {:e}, sign-sum definition gives {}", a.k_statistic, e.k),
+                    series_case("pettitt", x),
+                );
+            }
+            if !in_range(a.p_value) {
+                acc.fail(
+                    "pettitt.p_value/range".into(),
+                    format!("p = {:e} outside [1e-15, 1]", a.p_value),
+                    series_case("pettitt", x),
+                );
+            } else if !close_rel(a.p_value, e.p, TOL_EXACT) {
+                acc.fail(
+                    "pettitt.p_value".into(),
+                    format!(
+                        "p = {:e}, 2exp(-6K^2/(n^3+n^2)) clamped gives {:e}",
+                        a.p_value, e.p
+                    ),
+                    series_case("pettitt", x),
+                );
+            }
+        }
+        (a, e) => acc.fail(
+            "pettitt.presence".into(),
+            format!(
+                "pettitt returned {:?} but the definition says {:?} (n={})",
+                a.is_some(),
+                e.is_some(),
+                x.len()
+            ),
+            series_case("pettitt", x),
+        ),
+    }
+}
+
+fn scale_of(x: &[f64]) -> f64 {
+    1.0 + x.iter().fold(0.0_f64, |m, v| m.max(v.abs()))
+}
+
+fn check_theil_sen(x: &[f64], ints: &[i64], tie: TieClass, acc: &mut Acc) {
+    acc.evaluations += 1;
+    let exp = rf::theil_sen(ints);
+    match (theil_sen_line(x), exp) {
+        (None, None) => acc.out(O::TS_NONE),
+        (Some((slope, intercept)), Some((es, ei))) => {
+            acc.out(O::TS_SOME);
+            let pairs = x.len() * (x.len() - 1) / 2;
+            if pairs % 2 == 0 {
+                acc.out(O::TS_HALF_SLOPE);
+            }
+            let scale = scale_of(x);
+            if !close_abs(slope, es.to_f64(), TOL_EXACT, scale) {
+                acc.fail(
+                    format!("theil_sen.slope/{}", tie.name()),
+                    format!(
+                        "slope = {slope:e}, median of pairwise slopes is {}/{}",
+                        es.num, es.den
+                    ),
+                    series_case("theil_sen_line", x),
+                );
+            }
+            // The intercept inherits the rounding of the f64 slope times the position: absolute
+            // tolerance relative to the data magnitude.
+            if !close_abs(intercept, ei.to_f64(), TOL_EXACT, scale * x.len() as f64) {
+                acc.fail(
+                    format!("theil_sen.intercept/{}", tie.name()),
+                    format!(
+                        "intercept = {intercept:e}, median of x_i - slope*i is {}/{}",
+                        ei.num, ei.den
+                    ),
+                    series_case("theil_sen_line", x),
+                );
+            }
+        }
+        (a, e) => acc.fail(
+            "theil_sen.presence".into(),
+            format!(
+                "theil_sen_line returned {:?} but the definition says {:?}",
+                a.is_some(),
+                e.is_some()
+            ),
+            series_case("theil_sen_line", x),
+        ),
+    }
+}
+
+fn check_median(x: &[f64], ints: &[i64], acc: &mut Acc) {
+    acc.evaluations += 1;
+    let mut rats: Vec<rf::Rat> = ints.iter().map(|&v| rf::Rat::int(i128::from(v))).collect();
+    let exp = rf::median_rat(&mut rats);
+    let mut scratch = x.to_vec();
+    let in_place = median_in_place(&mut scratch);
+    for (which, got) in [("median", median(x)), ("median_in_place", in_place)] {
+        match (got, exp) {
+            (None, None) => {}
+            (Some(a), Some(e)) if close_abs(a, e.to_f64(), TOL_EXACT, scale_of(x)) => {}
+            (a, e) => acc.fail(
+                format!(
+                    "median.value/{}",
+                    if x.len() % 2 == 0 { "even" } else { "odd" }
+                ),
+                format!(
+                    "{which} = {a:?}, definition gives {:?}",
+                    e.map(|r| (r.num, r.den))
+                ),
+                series_case("median", x),
+            ),
+        }
+    }
+    acc.out(if x.is_empty() {
+        O::MED_NONE
+    } else if x.len() % 2 == 0 {
+        O::MED_EVEN
+    } else {
+        O::MED_ODD
+    });
+    // Documented: the slice is left sorted.
+    if scratch.windows(2).any(|w| w[0] > w[1]) {
+        acc.fail(
+            "median_in_place.leaves_sorted".into(),
+            "median_in_place did not leave the slice sorted".into(),
+            series_case("median", x),
+        );
+    }
+}
+
+fn selection_calibration() -> SelectionCalibration {
+    SelectionCalibration {
+        permutation_order_budget: NonZero::new(5040).unwrap(),
+        analytic_weight: 0.5,
+        accept_analytic_below: 0.01,
+        reject_at_or_above: 1.0,
+    }
+}
+
+/// Light check of the selection-adjusted change point: it must report the Pettitt split, the
+/// Mann-Whitney p-value and superiority at that split, and an adjusted p-value in the reportable
+/// range that is no smaller than the tainted one (all documented on the struct / function).
+fn check_selection(x: &[f64], min_regime: usize, cache: &mut TailCache, acc: &mut Acc) {
+    acc.evaluations += 1;
+    let case = || json!({"function": "selection_adjusted_change_point", "values": vec_json(x), "min_regime": min_regime});
+    let got = selection_adjusted_change_point(x, min_regime, selection_calibration());
+    let exp = rf::pettitt(x).and_then(|pt| {
+        if pt.index.min(x.len() - pt.index) < min_regime {
+            None
+        } else {
+            let mw = rf::mann_whitney(&x[..pt.index], &x[pt.index..], cache)?;
+            Some((pt.index, mw))
+        }
+    });
+    match (got, exp) {
+        (None, None) => acc.out(O::SEL_NONE),
+        (Some(a), Some((index, mw))) => {
+            acc.out(O::SEL_SOME);
+            if a.index != index {
+                acc.fail(
+                    "selection.index".into(),
+                    format!("index = {}, Pettitt first maximiser is {index}", a.index),
+                    case(),
+                );
+                return;
+            }
+            let tol = if mw.exact { TOL_EXACT } else { TOL_NORMAL };
+            if !close_rel(a.tainted_p, mw.p, tol) {
+                acc.fail(
+                    "selection.tainted_p".into(),
+                    format!("tainted_p = {:e}, Mann-Whitney at the selected split gives {:e}", a.tainted_p, mw.p),
+                    case(),
+                );
+            }
+            if !close_abs(a.superiority, mw.sup, TOL_EXACT, 1.0) {
+                acc.fail(
+                    "selection.superiority".into(),
+                    format!("superiority = {:e}, pair counting gives {:e}", a.superiority, mw.sup),
+                    case(),
+                );
+            }
+            if !in_range(a.adjusted_p) {
+                acc.fail(
+                    "selection.adjusted_p/range".into(),
+                    format!("adjusted_p = {:e} outside [1e-15, 1]", a.adjusted_p),
+                    case(),
+                );
+            } else if a.adjusted_p < a.tainted_p {
+                acc.fail(
+                    "selection.adjusted_p/below_tainted".into(),
+                    format!("adjusted_p = {:e} is smaller than tainted_p = {:e}", a.adjusted_p, a.tainted_p),
+                    case(),
+                );
+            } else if a.adjusted_p > a.tainted_p {
+                acc.out(O::SEL_ADJUSTED_ABOVE);
+            }
+        }
+        (a, e) => acc.fail(
+            "selection.presence".into(),
+            format!(
+                "selection_adjusted_change_point returned {:?}, definition (Pettitt split with min_regime={min_regime}) says {:?}",
+                a.map(|r| r.index),
+                e.map(|r| r.0)
+            ),
+            case(),
+        ),
+    }
+}
+
+// ---------------------------------------------------------------------------------------------
+// Family A: every weak ordering of n points in every arrangement in time (Fubini(n) sequences)
+// ---------------------------------------------------------------------------------------------
+
+fn enum_seq(
+    n: usize,
+    levels: &mut Vec<u8>,
+    used: u32,
+    stop_at: usize,
+    f: &mut dyn FnMut(&[u8], u32),
+) {
+    let pos = levels.len();
+    if pos == stop_at {
+        if pos == n {
+            let k = used.count_ones();
+            if used == (1_u32 << k) - 1 {
+                f(levels, used);
+            }
+        } else {
+            f(levels, used);
+        }
+        return;
+    }
+    let remaining = n - pos;
+    for l in 0..n as u8 {
+        let u2 = used | (1_u32 << l);
+        let top = 32 - u2.leading_zeros();
+        let holes = top - u2.count_ones();
+        if holes as usize > remaining - 1 {
+            continue;
+        }
+        levels.push(l);
+        enum_seq(n, levels, u2, stop_at, f);
+        levels.pop();
+    }
+}
+
+#[derive(Clone, Copy)]
+struct SeqCfg {
+    two_sample: bool,
+    swap: bool,
+    rank_maps: usize,
+    int_maps: usize,
+    selection: bool,
+}
+
+fn run_sequence(levels: &[u8], cfg: SeqCfg, cache: &mut TailCache, acc: &mut Acc) {
+    let n = levels.len();
+    let k = levels.iter().map(|&l| l as usize + 1).max().unwrap_or(0);
+    let mut vals: [Vec<f64>; 4] = Default::default();
+    for (m, v) in vals.iter_mut().enumerate() {
+        *v = levels
+            .iter()
+            .map(|&l| map_value(m, l as usize, k))
+            .collect();
+    }
+    let base = &vals[0];
+    let tie = TieClass::of(base);
+
+    // distinct case: the weak ordering itself (time-ordered functions)
+    let mut hbuf = [0_u8; 20];
+    hbuf[0] = b'T';
+    hbuf[1] = n as u8;
+    hbuf[2..2 + n].copy_from_slice(levels);
+    if n >= 2 {
+        acc.distinct.insert(fnv1a(&hbuf[..2 + n]));
+    }
+
+    let mk_ref = rf::mann_kendall(base);
+    let pt_ref = rf::pettitt(base);
+    for v in vals.iter().take(cfg.rank_maps) {
+        check_mk(v, &mk_ref, tie, acc);
+        check_pettitt(v, &pt_ref, acc);
+    }
+    for v in vals.iter().take(cfg.int_maps) {
+        let ints: Vec<i64> = v.iter().map(|&f| f as i64).collect();
+        check_theil_sen(v, &ints, tie, acc);
+        check_median(v, &ints, acc);
+    }
+    if cfg.selection {
+        for min_regime in 1..=2 {
+            for v in vals.iter().take(cfg.rank_maps.min(2)) {
+                check_selection(v, min_regime, cache, acc);
+            }
+        }
+    }
+    if cfg.two_sample {
+        hbuf[0] = b'S';
+        for split in 0..=n {
+            let exp = rf::mann_whitney(&base[..split], &base[split..], cache);
+            if exp.is_some() {
+                hbuf[2 + n] = split as u8;
+                acc.distinct.insert(fnv1a(&hbuf[..3 + n]));
+            }
+            for v in vals.iter().take(cfg.rank_maps) {
+                check_mw(&v[..split], &v[split..], &exp, acc);
+            }
+            if cfg.swap && exp.is_some() {
+                check_mw_swap(&base[..split], &base[split..], acc);
+            }
+        }
+    }
+}
+
+// ---------------------------------------------------------------------------------------------
+// Family B: canonical two-sample cases (left multiset, right multiset) for larger n
+// ---------------------------------------------------------------------------------------------
+
+fn run_canonical(comp: &[u8], cache: &mut TailCache, acc: &mut Acc) {
+    let k = comp.len();
+    let n: usize = comp.iter().map(|&c| c as usize).sum();
+    let mut a = vec![0_u8; k];
+    let mut hbuf = Vec::with_capacity(2 * k + 2);
+    loop {
+        let n1: usize = a.iter().map(|&c| c as usize).sum();
+        let mut left_levels = Vec::with_capacity(n1);
+        let mut right_levels = Vec::with_capacity(n - n1);
+        for l in 0..k {
+            for _ in 0..a[l] {
+                left_levels.push(l);
+            }
+            for _ in a[l]..comp[l] {
+                right_levels.push(l);
+            }
+        }
+        let build = |m: usize, lv: &[usize]| -> Vec<f64> {
+            lv.iter().map(|&l| map_value(m, l, k)).collect()
+        };
+        let (bl, br) = (build(0, &left_levels), build(0, &right_levels));
+        let exp = rf::mann_whitney(&bl, &br, cache);
+        let exp_swapped = rf::mann_whitney(&br, &bl, cache);
+        if exp.is_some() {
+            hbuf.clear();
+            hbuf.push(b'C');
+            hbuf.extend_from_slice(comp);
+            hbuf.push(255);
+            hbuf.extend_from_slice(&a);
+            acc.distinct.insert(fnv1a(&hbuf));
+        }
+        for m in 0..4 {
+            let (l, r) = if m == 0 {
+                (bl.clone(), br.clone())
+            } else {
+                (build(m, &left_levels), build(m, &right_levels))
+            };
+            check_mw(&l, &r, &exp, acc);
+            if m == 0 {
+                check_mw(&r, &l, &exp_swapped, acc);
+                check_mw_swap(&l, &r, acc);
+            }
+        }
+        // next left-count vector (mixed radix)
+        let mut i = 0;
+        loop {
+            if i == k {
+                return;
+            }
+            if a[i] < comp[i] {
+                a[i] += 1;
+                break;
+            }
+            a[i] = 0;
+            i += 1;
+        }
+    }
+}
+
+fn compositions(n: usize) -> Vec<Vec<u8>> {
+    let mut out = Vec::new();
+    for bits in 0..(1_u32 << (n - 1)) {
+        let mut comp = Vec::new();
+        let mut run = 1_u8;
+        for i in 0..n - 1 {
+            if bits >> i & 1 == 1 {
+                comp.push(run);
+                run = 1;
+            } else {
+                run += 1;
+            }
+        }
+        comp.push(run);
+        out.push(comp);
+    }
+    out
+}
+
+// ---------------------------------------------------------------------------------------------
+// Family C: the exact/approximate switch-over sizes (constant, two-valued and all-distinct data)
+// ---------------------------------------------------------------------------------------------
+
+#[derive(Clone, Copy, Debug, PartialEq)]
+enum BFam {
+    Constant,
+    /// left holds `a` ones (rest zeros); right holds b ones for every b.
+    TwoValued,
+    /// all values distinct; right sample shifted through the left one.
+    DistinctShift,
+}
+
+/// Exact hypergeometric cross-check of the reference on two-valued data: the left rank sum is an
+/// increasing function of the number of ones on the left, h ~ Hypergeometric(N, K, n1).
+fn hypergeometric_p(n1: usize, n2: usize, a: usize, b: usize) -> f64 {
+    let (n, ones) = (n1 + n2, a + b);
+    let total = rf::binom_sat(n, n1);
+    let mut lo = 0_u128;
+    let mut hi = 0_u128;
+    for h in 0..=n1.min(ones) {
+        if n1 - h > n - ones {
+            continue;
+        }
+        let ways = rf::binom_sat(ones, h) * rf::binom_sat(n - ones, n1 - h);
+        if h <= a {
+            lo += ways;
+        }
+        if h >= a {
+            hi += ways;
+        }
+    }
+    let tail = lo.min(hi);
+    rf::clamp_report(if 2 * tail >= total {
+        1.0
+    } else {
+        (2 * tail) as f64 / total as f64
+    })
+}
+
+fn run_boundary(
+    n1: usize,
+    n2: usize,
+    fam: BFam,
+    a: usize,
+    cache: &mut TailCache,
+    acc: &mut Acc,
+) -> Result<(), String> {
+    let mut run = |left: Vec<f64>,
+                   right: Vec<f64>,
+                   tag: (u8, usize, usize),
+                   acc: &mut Acc|
+     -> Option<MwRef> {
+        let exp = rf::mann_whitney(&left, &right, cache);
+        let exp_swapped = rf::mann_whitney(&right, &left, cache);
+        acc.distinct
+            .insert(fnv1a(format!("B{n1},{n2},{tag:?}").as_bytes()));
+        // Each exact-path call costs milliseconds here, so every case gets: the struct API both
+        // ways round (swap symmetry), the p-value convenience function, and one strictly
+        // increasing transform (2x+1 on even case numbers, x^3 on odd ones).
+        let ab = check_mw_opt(&left, &right, &exp, false, acc);
+        let ba = check_mw_opt(&right, &left, &exp_swapped, false, acc);
+        if let (Some(ab), Some(ba)) = (ab, ba) {
+            swap_verdict(&left, &right, ab, ba, acc);
+        }
+        acc.evaluations += 1;
+        let conv = mann_whitney_u_pvalue(&left, &right);
+        if let Some(e) = &exp
+            && !close_rel(conv, e.p, if e.exact { TOL_EXACT } else { TOL_NORMAL })
+        {
+            acc.fail(
+                format!(
+                    "mann_whitney.p_value/{}/{}",
+                    if e.exact { "exact" } else { "normal" },
+                    e.tie.name()
+                ),
+                format!(
+                    "mann_whitney_u_pvalue = {conv:e}, definition gives {:e} (n1={n1}, n2={n2})",
+                    e.p
+                ),
+                mw_case(&left, &right),
+            );
+        }
+        let f: fn(f64) -> f64 = if (tag.1 + tag.2) % 2 == 0 {
+            |x| 2.0 * x + 1.0
+        } else {
+            |x| x * x * x
+        };
+        let l2: Vec<f64> = left.iter().map(|&x| f(x - 2.0)).collect();
+        let r2: Vec<f64> = right.iter().map(|&x| f(x - 2.0)).collect();
+        check_mw_opt(&l2, &r2, &exp, false, acc);
+        exp
+    };
+    match fam {
+        BFam::Constant => {
+            run(vec![7.0; n1], vec![7.0; n2], (0, 0, 0), acc);
+        }
+        BFam::TwoValued => {
+            for b in 0..=n2 {
+                let left: Vec<f64> = (0..n1).map(|i| if i < a { 1.0 } else { 0.0 }).collect();
+                let right: Vec<f64> = (0..n2).map(|i| if i < b { 1.0 } else { 0.0 }).collect();
+                let exp = run(left, right, (1, a, b), acc);
+                if let Some(e) = exp
+                    && e.exact
+                {
+                    let h = hypergeometric_p(n1, n2, a, b);
+                    if !close_rel(h, e.p, 1e-13) {
+                        return Err(format!(
+                            "reference self-check: subset-sum p {:e} != hypergeometric p {h:e} at n1={n1} n2={n2} a={a} b={b}",
+                            e.p
+                        ));
+                    }
+                }
+            }
+        }
+        BFam::DistinctShift => {
+            // left = 0, 2, 4, ...; right = odd numbers starting at 2*shift+1 - 2*n2 .. (shift in 0..=n1+n2)
+            let shift = a as i64;
+            let left: Vec<f64> = (0..n1).map(|i| (2 * i) as f64).collect();
+            let right: Vec<f64> = (0..n2)
+                .map(|j| (2 * (j as i64 + shift - n2 as i64) + 1) as f64)
+                .collect();
+            run(left, right, (2, a, 0), acc);
+        }
+    }
+    Ok(())
+}
+
+/// Largest n2 >= k for which the exact path is documented to be used with min side k.
+fn max_exact_n2(k: usize) -> Option<usize> {
+    if !rf::mw_exact_expected(k, k) {
+        return None;
+    }
+    let mut n2 = k;
+    while rf::mw_exact_expected(k, n2 + 1) {
+        n2 += 1;
+    }
+    Some(n2)
+}
+
+// ---------------------------------------------------------------------------------------------
+// Family D: Benjamini-Hochberg over the 9-value domain
+// ---------------------------------------------------------------------------------------------
+
+const BH_DOMAIN: [f64; 9] = [0.0, 1e-16, 1e-15, 0.01, 0.049, 0.05, 0.051, 1.0, f64::NAN];
+const BH_QS: [f64; 2] = [0.05, 0.1];
+
+fn bh_case(p: &[f64], q: f64, m: usize) -> Value {
+    json!({"function": "benjamini_hochberg", "p_values": vec_json(p), "q": q, "family_size": m})
+}
+
+fn check_bh(p: &[f64], q: f64, m: usize, acc: &mut Acc) -> Option<Vec<bool>> {
+    acc.evaluations += 1;
+    let got = benjamini_hochberg(p, q, m);
+    let has_nan = p.iter().any(|v| v.is_nan());
+    if has_nan {
+        acc.out(O::BH_NAN);
+    }
+    match rf::benjamini_hochberg(p, q, m) {
+        rf::BhRef::RoundingAmbiguous => {
+            acc.out(O::BH_AMBIGUOUS);
+            None
+        }
+        rf::BhRef::Mask {
+            mask,
+            max_rank,
+            rescued,
+        } => {
+            if rescued {
+                acc.out(O::BH_RESCUED);
+            }
+            let rejected = mask.iter().filter(|&&b| b).count();
+            acc.out(if rejected == 0 {
+                O::BH_NONE
+            } else if rejected == p.len() {
+                O::BH_ALL
+            } else {
+                O::BH_SOME
+            });
+            if got != mask {
+                acc.fail(
+                    format!(
+                        "benjamini_hochberg.mask/{}/{}",
+                        if m == p.len() { "family_eq_len" } else { "family_gt_len" },
+                        if has_nan { "nan" } else { "nonan" }
+                    ),
+                    format!("keep-mask = {got:?}, step-up definition gives {mask:?} (k*={max_rank}, q={q}, m={m})"),
+                    bh_case(p, q, m),
+                );
+            }
+            Some(mask)
+        }
+    }
+}
+
+fn run_bh(len: usize, acc: &mut Acc) {
+    let total = 9_usize.pow(len as u32);
+    let mut p = vec![0.0_f64; len];
+    for code in 0..total {
+        let mut c = code;
+        for slot in p.iter_mut() {
+            *slot = BH_DOMAIN[c % 9];
+            c /= 9;
+        }
+        for (qi, &q) in BH_QS.iter().enumerate() {
+            let m_small = check_bh(&p, q, len, acc);
+            let m_large = check_bh(&p, q, len + 3, acc);
+            if len > 0 {
+                acc.distinct
+                    .insert(fnv1a(format!("H{len},{code},{qi},0").as_bytes()));
+                acc.distinct
+                    .insert(fnv1a(format!("H{len},{code},{qi},1").as_bytes()));
+            }
+            if let (Some(a), Some(b)) = (m_small, m_large)
+                && a != b
+            {
+                acc.out(O::BH_FAMILY_MATTERS);
+            }
+        }
+        // Documented panic for family_size < len: observed, not judged (outside the statement).
+        if (1..=3).contains(&len) {
+            let pv = p.clone();
+            let r = std::panic::catch_unwind(move || benjamini_hochberg(&pv, 0.05, len - 1));
+            acc.out(if r.is_err() {
+                O::BH_SMALL_FAMILY_PANICS
+            } else {
+                O::BH_SMALL_FAMILY_RETURNS
+            });
+        }
+    }
+}
+
+// ---------------------------------------------------------------------------------------------
+// Family E: Student t reportable range / no-evidence mapping / closed forms
+// ---------------------------------------------------------------------------------------------
+
+fn run_student_t(acc: &mut Acc) {
+    let mags = [
+        0.0,
+        5e-324,
+        1e-300,
+        1e-10,
+        1e-3,
+        0.1,
+        0.5,
+        1.0,
+        2.0,
+        3.0,
+        5.0,
+        10.0,
+        37.0,
+        100.0,
+        1e3,
+        1e5,
+        1e7,
+        1e10,
+        1e15,
+        1e20,
+        1e100,
+        1e154,
+        1e155,
+        1e300,
+        f64::MAX,
+    ];
+    let dfs = [
+        f64::NAN,
+        f64::NEG_INFINITY,
+        -1.0,
+        -0.0,
+        0.0,
+        0.5,
+        0.999_999_999_999_999_9,
+        1.0,
+        1.000_000_000_000_000_2,
+        1.5,
+        2.0,
+        2.5,
+        3.0,
+        4.0,
+        5.0,
+        10.0,
+        30.0,
+        100.0,
+        1000.0,
+        1e6,
+        1e9,
+        1e15,
+        1e300,
+        f64::MAX,
+        f64::INFINITY,
+    ];
+    let case = |t: f64, df: f64| json!({"function": "student_t_two_sided_p", "t": vec_json(&[t]), "df": vec_json(&[df])});
+    for &df in &dfs {
+        let degenerate_df = !df.is_finite() || df < 1.0;
+        let mut prev: Option<(f64, f64)> = None;
+        let mut ts: Vec<f64> = mags.to_vec();
+        ts.extend([f64::INFINITY, f64::NAN]);
+        for &mag in &ts {
+            for t in [mag, -mag] {
+                acc.evaluations += 1;
+                acc.distinct.insert(fnv1a(
+                    format!("t{:x},{:x}", t.to_bits(), df.to_bits()).as_bytes(),
+                ));
+                let p = student_t_two_sided_p(t, df);
+                if !degenerate_df && t.is_finite() && p <= rf::P_FLOOR {
+                    acc.out(O::ST_FLOOR);
+                }
+                if !in_range(p) {
+                    acc.fail(
+                        "student_t.p/range".into(),
+                        format!("p({t:e}, df={df:e}) = {p:e} outside [1e-15, 1]"),
+                        case(t, df),
+                    );
+                    continue;
+                }
+                if degenerate_df || !t.is_finite() {
+                    acc.out(O::ST_DEGENERATE);
+                    if p != 1.0 {
+                        acc.fail(
+                            "student_t.p/degenerate_not_no_evidence".into(),
+                            format!(
+                                "p({t:e}, df={df:e}) = {p:e}, documented 1.0 for a degenerate test"
+                            ),
+                            case(t, df),
+                        );
+                    }
+                    continue;
+                }
+                if p > rf::P_FLOOR {
+                    acc.out(O::ST_INTERIOR);
+                }
+                if t == 0.0 && p != 1.0 {
+                    acc.fail(
+                        "student_t.p/t=0".into(),
+                        format!("p(0, df={df:e}) = {p:e}, documented 1.0"),
+                        case(t, df),
+                    );
+                }
+                if (df == 1.0 || df == 2.0)
+                    && let Some(e) = rf::student_t_closed_form(t, df as u32)
+                {
+                    acc.out(O::ST_CLOSED_FORM);
+                    if !close_rel(p, e, TOL_STUDENT) {
+                        acc.fail(
+                            format!("student_t.p/closed_form_df={df}"),
+                            format!("p({t:e}, df={df}) = {p:e}, closed form gives {e:e}"),
+                            case(t, df),
+                        );
+                    }
+                }
+            }
+            // documented: symmetric in the sign of t, falls as |t| grows (judged inside the
+            // documented accuracy domain, df <= 1000)
+            if !degenerate_df && df <= 1000.0 && mag.is_finite() {
+                let (pp, pn) = (
+                    student_t_two_sided_p(mag, df),
+                    student_t_two_sided_p(-mag, df),
+                );
+                if !close_rel(pp, pn, TOL_EXACT) {
+                    acc.fail(
+                        "student_t.p/sign_symmetry".into(),
+                        format!("p({mag:e}) = {pp:e} but p(-{mag:e}) = {pn:e} at df={df:e}"),
+                        case(mag, df),
+                    );
+                }
+                if let Some((pm, pv)) = prev
+                    && pp > pv * (1.0 + TOL_STUDENT)
+                {
+                    acc.fail(
+                        "student_t.p/monotone".into(),
+                        format!(
+                            "p rises from {pv:e} at |t|={pm:e} to {pp:e} at |t|={mag:e} (df={df:e})"
+                        ),
+                        case(mag, df),
+                    );
+                }
+                prev = Some((mag, pp));
+            }
+        }
+    }
+}
+
+// ---------------------------------------------------------------------------------------------
+// Family F: long monotone / step / constant series that drive p to the reporting floor
+// ---------------------------------------------------------------------------------------------
+
+fn run_long_series(n: usize, acc: &mut Acc) {
+    let shapes: [(&str, Vec<f64>); 5] = [
+        ("increasing", (0..n).map(|i| i as f64).collect()),
+        ("decreasing", (0..n).map(|i| -(i as f64)).collect()),
+        (
+            "step",
+            (0..n).map(|i| if i < n / 2 { 0.0 } else { 1.0 }).collect(),
+        ),
+        ("constant", vec![3.0; n]),
+        (
+            "sawtooth",
+            (0..n).map(|i| (i % 3) as f64 + (i / 3) as f64).collect(),
+        ),
+    ];
+    for (name, x) in shapes {
+        acc.distinct.insert(fnv1a(format!("L{n}{name}").as_bytes()));
+        let tie = TieClass::of(&x);
+        check_mk(&x, &rf::mann_kendall(&x), tie, acc);
+        check_pettitt(&x, &rf::pettitt(&x), acc);
+        let ints: Vec<i64> = x.iter().map(|&v| v as i64).collect();
+        check_theil_sen(&x, &ints, tie, acc);
+        check_median(&x, &ints, acc);
+    }
+}
+
+// ---------------------------------------------------------------------------------------------
+// Jobs
+// ---------------------------------------------------------------------------------------------
+
+#[derive(Clone, Debug)]
+enum Job {
+    Seq {
+        n: usize,
+        prefix: Vec<u8>,
+    },
+    Canon {
+        comp: Vec<u8>,
+    },
+    Boundary {
+        n1: usize,
+        n2: usize,
+        fam: BFam,
+        a: usize,
+    },
+    Bh {
+        len: usize,
+    },
+    StudentT,
+    Long {
+        n: usize,
+    },
+}
+
+struct Plan {
+    seq_two_sample_max: usize,
+    seq_full_maps_max: usize,
+    seq_time_max: usize,
+    canon_max: usize,
+    boundary_ks: Vec<usize>,
+    selection_max: usize,
+}
+
+fn plan() -> Plan {
+    if vcommon::is_thorough() {
+        Plan {
+            seq_two_sample_max: 9,
+            seq_full_maps_max: 9,
+            seq_time_max: 10,
+            canon_max: 14,
+            boundary_ks: (10..=29).collect(),
+            selection_max: 7,
+        }
+    } else {
+        Plan {
+            seq_two_sample_max: 8,
+            seq_full_maps_max: 8,
+            seq_time_max: 8,
+            canon_max: 11,
+            boundary_ks: vec![20, 27, 28, 29],
+            selection_max: 6,
+        }
+    }
+}
+
+fn seq_cfg(plan: &Plan, n: usize) -> SeqCfg {
+    let full = n <= plan.seq_full_maps_max;
+    SeqCfg {
+        two_sample: n <= plan.seq_two_sample_max,
+        swap: n <= plan.seq_two_sample_max,
+        rank_maps: if full { 4 } else { 2 },
+        int_maps: if full { INT_MAPS } else { 2 },
+        selection: n <= plan.selection_max,
+    }
+}
+
+fn boundary_pairs(plan: &Plan) -> Vec<(usize, usize)> {
+    let mut pairs = Vec::new();
+    for &k in &plan.boundary_ks {
+        match max_exact_n2(k) {
+            Some(n2) => {
+                pairs.push((k, n2));
+                pairs.push((k, n2 + 1));
+                if n2 != k {
+                    pairs.push((n2, k));
+                }
+                pairs.push((n2 + 1, k));
+            }
+            None => pairs.push((k, k)),
+        }
+    }
+    // far inside the approximation regime: reaches the reporting floor
+    pairs.extend([(50, 50), (100, 100), (40, 90)]);
+    pairs.sort_unstable();
+    pairs.dedup();
+    pairs
+}
+
+fn build_jobs(plan: &Plan) -> Vec<Job> {
+    let mut jobs = Vec::new();
+    // Expensive first for load balance.
+    for (n1, n2) in boundary_pairs(plan) {
+        jobs.push(Job::Boundary {
+            n1,
+            n2,
+            fam: BFam::Constant,
+            a: 0,
+        });
+        for a in 0..=n1 {
+            jobs.push(Job::Boundary {
+                n1,
+                n2,
+                fam: BFam::TwoValued,
+                a,
+            });
+        }
+        for a in 0..=(n1 + n2) {
+            jobs.push(Job::Boundary {
+                n1,
+                n2,
+                fam: BFam::DistinctShift,
+                a,
+            });
+        }
+    }
+    for n in (0..=plan.seq_time_max).rev() {
+        let depth = if n <= 2 {
+            0
+        } else if n <= 8 {
+            2
+        } else {
+            3
+        };
+        let mut levels = Vec::new();
+        enum_seq(n, &mut levels, 0, depth, &mut |prefix, _| {
+            jobs.push(Job::Seq {
+                n,
+                prefix: prefix.to_vec(),
+            });
+        });
+    }
+    for n in (plan.seq_two_sample_max + 1..=plan.canon_max).rev() {
+        for comp in compositions(n) {
+            jobs.push(Job::Canon { comp });
+        }
+    }
+    for len in (0..=5).rev() {
+        jobs.push(Job::Bh { len });
+    }
+    jobs.push(Job::StudentT);
+    for n in [400, 200, 100, 96, 64, 50, 30, 20, 12] {
+        jobs.push(Job::Long { n });
+    }
+    jobs
+}
+
+struct JobOut {
+    secs: f64,
+    /// Number of distinct case hashes seen by the job (the set itself is dropped with the job).
+    distinct: u64,
+    acc: Acc,
+    sequences: u64,
+    engine_error: Option<String>,
+}
+
+fn run_job(job: &Job, plan: &Plan, cache: &mut TailCache) -> JobOut {
+    let started = thread_cpu_seconds();
+    let mut acc = Acc::new();
+    let mut sequences = 0_u64;
+    let mut engine_error = None;
+    match job {
+        Job::Seq { n, prefix } => {
+            let cfg = seq_cfg(plan, *n);
+            let mut levels = prefix.clone();
+            let used = prefix.iter().fold(0_u32, |u, &l| u | (1 << l));
+            let before = acc.evaluations;
+            enum_seq(*n, &mut levels, used, *n, &mut |seq, _| {
+                sequences += 1;
+                run_sequence(seq, cfg, cache, &mut acc);
+            });
+            let evals = acc.evaluations - before;
+            acc.family("A:sequences(all arrangements in time)", evals);
+        }
+        Job::Canon { comp } => {
+            run_canonical(comp, cache, &mut acc);
+            let evals = acc.evaluations;
+            acc.family(
+                "B:canonical two-sample (left multiset, right multiset)",
+                evals,
+            );
+        }
+        Job::Boundary { n1, n2, fam, a } => {
+            if let Err(e) = run_boundary(*n1, *n2, *fam, *a, cache, &mut acc) {
+                engine_error = Some(e);
+            }
+            let evals = acc.evaluations;
+            acc.family("C:exact/normal switch-over sizes", evals);
+        }
+        Job::Bh { len } => {
+            run_bh(*len, &mut acc);
+            let evals = acc.evaluations;
+            acc.family("D:benjamini_hochberg", evals);
+        }
+        Job::StudentT => {
+            run_student_t(&mut acc);
+            let evals = acc.evaluations;
+            acc.family("E:student_t grid", evals);
+        }
+        Job::Long { n } => {
+            run_long_series(*n, &mut acc);
+            let evals = acc.evaluations;
+            acc.family("F:long series (reporting floor)", evals);
+        }
+    }
+    let distinct = acc.distinct.len() as u64;
+    acc.distinct = HashSet::new();
+    JobOut {
+        secs: thread_cpu_seconds() - started,
+        distinct,
+        acc,
+        sequences,
+        engine_error,
+    }
+}
+
+fn fubini(n: usize) -> u64 {
+    let mut a = vec![1_u64; n + 1];
+    for m in 1..=n {
+        a[m] = (1..=m).map(|k| rf::binom_sat(m, k) as u64 * a[m - k]).sum();
+    }
+    a[n]
+}
+
+// ---------------------------------------------------------------------------------------------
+// Replay / samples: describe one case (function + exact inputs) with expected and actual values
+// ---------------------------------------------------------------------------------------------
+
+fn describe(case: &Value) -> Result<(Value, Vec<String>), String> {
+    let function = case
+        .get("function")
+        .and_then(Value::as_str)
+        .ok_or("replay has no `function`")?;
+    let mut acc = Acc::new();
+    acc.keep_per_key = 100;
+    let mut cache = TailCache::default();
+    let vecf = |k: &str| {
+        case.get(k)
+            .and_then(parse_vec)
+            .ok_or(format!("replay has no vector `{k}`"))
+    };
+    let mut out = case.clone();
+    let (expected, actual) = match function {
+        "mann_whitney" => {
+            let (l, r) = (vecf("left")?, vecf("right")?);
+            let exp = rf::mann_whitney(&l, &r, &mut cache);
+            check_mw(&l, &r, &exp, &mut acc);
+            check_mw_swap(&l, &r, &mut acc);
+            let a = MannWhitneyU::new(&l, &r);
+            (
+                exp.map_or(json!(null), |e| {
+                    json!({"path": if e.exact {"exact"} else {"normal"}, "p": fj(e.p), "superiority": fj(e.sup),
+                           "tails_le_ge_total": e.tails.map(|t| [t.0.to_string(), t.1.to_string(), t.2.to_string()])})
+                }),
+                json!({"MannWhitneyU": a.map(|a| json!({"p": fj(a.two_sided_p_value()), "superiority": fj(a.superiority())})),
+                       "mann_whitney_u_pvalue": fj(mann_whitney_u_pvalue(&l, &r)),
+                       "mann_whitney_superiority": mann_whitney_superiority(&l, &r).map(fj)}),
+            )
+        }
+        "mann_kendall" => {
+            let x = vecf("values")?;
+            let e = rf::mann_kendall(&x);
+            check_mk(&x, &e, TieClass::of(&x), &mut acc);
+            let a = mann_kendall(&x);
+            (
+                json!({"s": e.s, "var_times_18": e.var18, "p": fj(e.p)}),
+                json!({"s": fj(a.s), "p": fj(a.p_value)}),
+            )
+        }
+        "pettitt" => {
+            let x = vecf("values")?;
+            let e = rf::pettitt(&x);
+            check_pettitt(&x, &e, &mut acc);
+            let a = pettitt(&x);
+            (
+                e.map_or(json!(null), |e| json!({"index": e.index, "k": e.k, "p": fj(e.p), "maximisers": e.argmax_count})),
+                a.map_or(json!(null), |a| json!({"index": a.index, "k": fj(a.k_statistic), "p": fj(a.p_value)})),
+            )
+        }
+        "theil_sen_line" | "median" => {
+            let x = vecf("values")?;
+            let ints = rf::as_integers(&x).ok_or("exact reference needs integer-valued data")?;
+            if function == "median" {
+                check_median(&x, &ints, &mut acc);
+                let mut r: Vec<rf::Rat> =
+                    ints.iter().map(|&v| rf::Rat::int(i128::from(v))).collect();
+                (
+                    json!(rf::median_rat(&mut r).map(|m| format!("{}/{}", m.num, m.den))),
+                    json!(median(&x).map(fj)),
+                )
+            } else {
+                check_theil_sen(&x, &ints, TieClass::of(&x), &mut acc);
+                (
+                    json!(rf::theil_sen(&ints).map(|(s, i)| json!({"slope": format!("{}/{}", s.num, s.den), "intercept": format!("{}/{}", i.num, i.den)}))),
+                    json!(theil_sen_line(&x).map(|(s, i)| json!({"slope": fj(s), "intercept": fj(i)}))),
+                )
+            }
+        }
+        "benjamini_hochberg" => {
+            let p = vecf("p_values")?;
+            let q = case.get("q").and_then(parse_f64).ok_or("no q")?;
+            let m = case
+                .get("family_size")
+                .and_then(Value::as_u64)
+                .ok_or("no family_size")? as usize;
+            let e = check_bh(&p, q, m, &mut acc);
+            (json!(e), json!(benjamini_hochberg(&p, q, m)))
+        }
+        "student_t_two_sided_p" => {
+            let (t, df) = (vecf("t")?[0], vecf("df")?[0]);
+            let p = student_t_two_sided_p(t, df);
+            let e = if !t.is_finite() || !df.is_finite() || df < 1.0 {
+                Some(1.0)
+            } else if df == 1.0 || df == 2.0 {
+                rf::student_t_closed_form(t, df as u32)
+            } else {
+                None
+            };
+            if let Some(e) = e
+                && !close_rel(p, e, TOL_STUDENT)
+            {
+                acc.fail(
+                    "student_t".into(),
+                    format!("p = {p:e}, expected {e:e}"),
+                    case.clone(),
+                );
+            }
+            if !in_range(p) {
+                acc.fail(
+                    "student_t.range".into(),
+                    format!("p = {p:e} outside [1e-15, 1]"),
+                    case.clone(),
+                );
+            }
+            (json!(e.map(fj)), fj(p))
+        }
+        "selection_adjusted_change_point" => {
+            let x = vecf("values")?;
+            let mr = case
+                .get("min_regime")
+                .and_then(Value::as_u64)
+                .ok_or("no min_regime")? as usize;
+            check_selection(&x, mr, &mut cache, &mut acc);
+            let a = selection_adjusted_change_point(&x, mr, selection_calibration());
+            let e = rf::pettitt(&x).map(|pt| {
+                let mw = rf::mann_whitney(&x[..pt.index], &x[pt.index..], &mut cache);
+                json!({"index": pt.index, "tainted_p": mw.as_ref().map(|m| fj(m.p)), "superiority": mw.as_ref().map(|m| fj(m.sup))})
+            });
+            (
+                json!(e),
+                json!(a.map(|a| json!({"index": a.index, "tainted_p": fj(a.tainted_p), "adjusted_p": fj(a.adjusted_p), "superiority": fj(a.superiority)}))),
+            )
+        }
+        other => return Err(format!("unknown function `{other}` in replay")),
+    };
+    out["expected"] = expected;
+    out["actual"] = actual;
+    let mismatches = acc
+        .violations
+        .iter()
+        .map(|v| format!("{}: {}", v.key, v.summary))
+        .collect();
+    Ok((out, mismatches))
+}
+
+fn replay_main(path: &str) -> ! {
+    let text = std::fs::read_to_string(path).unwrap_or_else(|e| {
+        println!("ENGINE-FAILURE property=C20 cannot read replay {path}: {e}");
+        std::process::exit(2)
+    });
+    let v: Value = vcommon::serde_json::from_str(&text).unwrap_or_else(|e| {
+        println!("ENGINE-FAILURE property=C20 replay does not parse: {e}");
+        std::process::exit(2)
+    });
+    let case = v.get("replay").cloned().unwrap_or(v);
+    match describe(&case) {
+        Err(e) => {
+            println!("ENGINE-FAILURE property=C20 {e}");
+            std::process::exit(2)
+        }
+        Ok((desc, mismatches)) => {
+            println!("{}", vcommon::serde_json::to_string_pretty(&desc).unwrap());
+            if mismatches.is_empty() {
+                println!("REPLAY property=C20 result=agrees-with-definition");
+                std::process::exit(0)
+            }
+            for m in &mismatches {
+                println!("REPLAY-MISMATCH {m}");
+            }
+            println!("VIOLATION property=C20 replay={path}");
+            std::process::exit(1)
+        }
+    }
+}
+
+fn sample_cases() -> Vec<Value> {
+    let lv = |levels: &[usize], m: usize| -> Vec<f64> {
+        let k = levels.iter().max().map_or(0, |&l| l + 1);
+        levels.iter().map(|&l| map_value(m, l, k)).collect()
+    };
+    let s = lv(&[1, 0, 1, 2, 0, 2, 2], 0);
+    vec![
+        mw_case(&s[..3], &s[3..]),
+        mw_case(&lv(&[0, 0, 1], 2), &lv(&[1, 2, 2, 2], 2)[..]),
+        series_case("mann_kendall", &lv(&[0, 1, 1, 2, 1, 3, 3], 1)),
+        series_case("pettitt", &lv(&[1, 0, 1, 3, 2, 3], 3)),
+        series_case("theil_sen_line", &lv(&[0, 2, 1, 1, 3], 2)),
+        bh_case(&[0.05, 0.01, f64::NAN, 0.049], 0.1, 7),
+    ]
+}
+
+// ---------------------------------------------------------------------------------------------
+
 fn main() {
+    if let Ok(path) = std::env::var("VERIF_REPLAY") {
+        replay_main(&path);
+    }
+    vcommon::quiet_panics();
+    tune_allocator();
     let mut c = Check::new("C20", "exploration");
-    c.rule = "stub".into();
-    for i in 0..3 { c.evaluations += 1; c.distinct_hash(i); }
-    c.sample(json!({"median": cbh_stats::median(&[1.0, 2.0, 4.0])}));
+    let plan = plan();
+
+    // Harness self-checks: a broken oracle is an engine failure, never a verdict.
+    if let Err(e) = rf::erfc_self_test() {
+        c.engine_failure(&format!("reference erfc self-test failed: {e}"));
+    }
+    let dp_checked = match rf::dp_self_test(if vcommon::is_thorough() { 11 } else { 9 }) {
+        Ok(n) => n,
+        Err(e) => c.engine_failure(&format!("reference subset-sum self-test failed: {e}")),
+    };
+
+    let jobs = build_jobs(&plan);
+    let next = AtomicUsize::new(0);
+    let results: Mutex<Vec<Option<JobOut>>> = Mutex::new((0..jobs.len()).map(|_| None).collect());
+    let threads = vcommon::default_parallelism().max(1);
+    std::thread::scope(|s| {
+        for _ in 0..threads {
+            s.spawn(|| {
+                let mut cache = TailCache::default();
+                loop {
+                    let i = next.fetch_add(1, Ordering::SeqCst);
+                    if i >= jobs.len() {
+                        break;
+                    }
+                    let r = std::panic::catch_unwind(std::panic::AssertUnwindSafe(|| {
+                        run_job(&jobs[i], &plan, &mut cache)
+                    }));
+                    let out = r.unwrap_or_else(|p| {
+                        cache = TailCache::default();
+                        JobOut {
+                            secs: 0.0,
+                            distinct: 0,
+                            acc: Acc::new(),
+                            sequences: 0,
+                            engine_error: Some(format!(
+                                "job {:?} panicked: {}",
+                                jobs[i],
+                                vcommon::panic_message(p.as_ref())
+                            )),
+                        }
+                    });
+                    results.lock().unwrap()[i] = Some(out);
+                }
+            });
+        }
+    });
+    let results: Vec<JobOut> = results
+        .into_inner()
+        .unwrap()
+        .into_iter()
+        .map(|r| r.expect("job ran"))
+        .collect();
+
+    // Merge in job order.
+    let mut outcomes = [0_u64; O::COUNT as usize];
+    let mut per_family: BTreeMap<&'static str, u64> = BTreeMap::new();
+    let mut family_secs: BTreeMap<&'static str, f64> = BTreeMap::new();
+    let mut seq_counts: BTreeMap<usize, u64> = BTreeMap::new();
+    let mut viol_counts: BTreeMap<String, u64> = BTreeMap::new();
+    let mut viol_first: BTreeMap<String, Vec<Viol>> = BTreeMap::new();
+    // Simplest inputs first, so that the witness kept per key is the smallest one.
+    let simplicity = |job: &Job| -> (u8, usize, usize) {
+        match job {
+            Job::Seq { n, .. } => (0, *n, 0),
+            Job::Bh { len } => (1, *len, 0),
+            Job::StudentT => (2, 0, 0),
+            Job::Canon { comp } => (3, comp.iter().map(|&c| c as usize).sum(), comp.len()),
+            Job::Long { n } => (4, *n, 0),
+            Job::Boundary { n1, n2, a, .. } => (5, n1 + n2, *a),
+        }
+    };
+    let mut order: Vec<usize> = (0..jobs.len()).collect();
+    order.sort_by_key(|&i| (simplicity(&jobs[i]), i));
+    let mut results: Vec<Option<JobOut>> = results.into_iter().map(Some).collect();
+    for i in order {
+        let job = &jobs[i];
+        let out = results[i].take().expect("each job merged once");
+        if let Some(e) = out.engine_error {
+            c.engine_failure(&e);
+        }
+        c.evaluations += out.acc.evaluations;
+        // Jobs enumerate disjoint regions (different prefix / composition / sizes), so distinct
+        // cases add up; within a job they are measured by hash.
+        c.distinct_add(out.distinct);
+        for (i, n) in out.acc.outcomes.iter().enumerate() {
+            outcomes[i] += n;
+        }
+        for (k, v) in out.acc.per_family {
+            *per_family.entry(k).or_insert(0) += v;
+            *family_secs.entry(k).or_insert(0.0) += out.secs;
+        }
+        if let Job::Seq { n, .. } = job {
+            *seq_counts.entry(*n).or_insert(0) += out.sequences;
+        }
+        for (k, n) in out.acc.viol_counts {
+            *viol_counts.entry(k).or_insert(0) += n;
+        }
+        for v in out.acc.violations {
+            let slot = viol_first.entry(v.key.clone()).or_default();
+            if slot.len() < 3 {
+                slot.push(v);
+            }
+        }
+    }
+    for (i, n) in outcomes.iter().enumerate() {
+        if *n > 0 {
+            c.outcome_n(OUT_NAMES[i], *n);
+        }
+    }
+
+    // Anti-vacuity: the enumeration must be complete and must have reached every class.
+    for (&n, &count) in &seq_counts {
+        if count != fubini(n) {
+            c.engine_failure(&format!(
+                "enumerated {count} weak orderings of {n} points, expected Fubini({n}) = {}",
+                fubini(n)
+            ));
+        }
+    }
+    // (Judged only when nothing was violated: a defect may legitimately make a class disappear,
+    // and then the violation is the verdict.)
+    let optional = [
+        O::BH_AMBIGUOUS as usize,
+        O::BH_SMALL_FAMILY_RETURNS as usize,
+    ];
+    for (i, n) in outcomes.iter().enumerate() {
+        if *n == 0 && !optional.contains(&i) && viol_counts.is_empty() {
+            c.engine_failure(&format!(
+                "anti-vacuity: outcome class `{}` was never observed",
+                OUT_NAMES[i]
+            ));
+        }
+    }
+
+    for (key, vs) in viol_first {
+        let total = viol_counts[&key];
+        for v in vs {
+            c.violation(
+                &key,
+                &format!("{} [{} witnesses in total for this key]", v.summary, total),
+                v.replay,
+            );
+        }
+    }
+
+    // Probe outside the decided domain: a NaN with the sign bit set (what 0.0/0.0 yields on x86).
+    let neg_nan = f64::from_bits(0xfff8_0000_0000_0000);
+    let probe = [neg_nan, 0.04];
+    c.extra.insert(
+        "observation_negative_nan_probe(not judged)".into(),
+        json!({"p_values": ["-NaN", 0.04], "q": 0.05, "family_size": 2,
+               "actual_mask": benjamini_hochberg(&probe, 0.05, 2),
+               "mask_if_nan_is_no_evidence": match rf::benjamini_hochberg(&probe, 0.05, 2) { rf::BhRef::Mask{mask, ..} => json!(mask), _ => json!(null) }}),
+    );
+
+    let pairs = boundary_pairs(&plan);
+    c.rule = format!(
+        "Exhaustive, no sampling. A: every weak ordering (tie pattern) of n points in every arrangement in time \
+         (Fubini(n) level sequences, n = 0..={tmax}) for Mann-Kendall, Pettitt, Theil-Sen, median; for n <= {smax} also every \
+         split point 0..=n of every such sequence into (left, right) for Mann-Whitney p / superiority (both convenience \
+         functions too, empty sides included) with direct swap-symmetry; each pattern realised as x=2*level-2, 2x+1, x^3 and an \
+         extreme-magnitude increasing table (all four for n <= {fmax}, first two above). B: every (left multiset, right multiset) \
+         over every tie composition for n = {bmin}..={bmax}, all four value maps, swapped and unswapped. C: Mann-Whitney at the \
+         documented exact/normal switch (C(n1+n2,min) < 2^53) for min side k in {ks:?}: sizes (k,n2max),(k,n2max+1) and mirrored, \
+         plus (40,90),(50,50),(100,100): constant data, every two-valued (a ones left, b ones right), every shift of an \
+         all-distinct right sample through the left one (each case: both sample orders, the p-value convenience function, and \
+         one of 2x+1 / x^3). D: Benjamini-Hochberg on every p-vector of length 0..=5 over \
+         {{0,1e-16,1e-15,0.01,0.049,0.05,0.051,1,NaN}} x q in {{0.05,0.1}} x family in {{len,len+3}}. E: Student t on a \
+         27x2 x 25 grid of (t, df) incl. non-finite. F: monotone/step/constant/sawtooth series of 12..400 points (reporting \
+         floor). For n <= {selmax}: selection_adjusted_change_point index/tainted_p/superiority/range. A case is distinct by \
+         (function family, level sequence or multiset pair or size+pattern, split); it is non-trivial when the function \
+         returns a computed result rather than its documented degenerate default (both samples non-empty, n >= 2, len >= 1). \
+         Oracle: reference.rs (pair counting, brute-force subset enumeration / u128 counting, exact rationals, libm erfc); \
+         tolerances: {TOL_EXACT:e} relative where both sides are exact arithmetic, {TOL_NORMAL:e} on normal-tail p-values, \
+         {TOL_STUDENT:e} on Student t.",
+        tmax = plan.seq_time_max,
+        smax = plan.seq_two_sample_max,
+        fmax = plan.seq_full_maps_max,
+        bmin = plan.seq_two_sample_max + 1,
+        bmax = plan.canon_max,
+        ks = plan.boundary_ks,
+        selmax = plan.selection_max,
+    );
+    c.max_samples = 8;
+    for case in sample_cases() {
+        match describe(&case) {
+            Ok((d, _)) => c.sample(d),
+            Err(e) => c.engine_failure(&format!("sample case failed: {e}")),
+        }
+    }
+    c.extra
+        .insert("evaluations_per_family".into(), json!(per_family));
+    c.extra
+        .insert("thread_cpu_seconds_per_family".into(), json!(family_secs));
+    c.extra.insert(
+        "weak_orderings_enumerated_per_n(== Fubini(n), checked)".into(),
+        json!(
+            seq_counts
+                .iter()
+                .map(|(n, v)| (n.to_string(), *v))
+                .collect::<BTreeMap<_, _>>()
+        ),
+    );
+    c.extra.insert(
+        "switch_over_size_pairs(n1,n2,exact_expected)".into(),
+        json!(
+            pairs
+                .iter()
+                .map(|&(a, b)| (a, b, rf::mw_exact_expected(a, b)))
+                .collect::<Vec<_>>()
+        ),
+    );
+    c.extra.insert("reference_self_checks".into(), json!({"subset_sum_dp_vs_brute_force_cases": dp_checked, "libm_erfc_vs_table_and_continued_fraction": "ok"}));
+    c.extra
+        .insert("violations_by_key".into(), json!(viol_counts));
+    c.extra.insert("threads".into(), json!(threads));
+    c.extra.insert("value_maps".into(), json!(MAP_NAMES));
+    c.assumptions.push("Data values are finite and free of -0.0/NaN (the crate orders by total_cmp; ties are bit-equality).".into());
+    c.assumptions.push("Outside the bound (random samples of thousands of points) the family does not apply; only the switch-over sizes and long monotone series are added.".into());
+    c.assumptions.push("Benjamini-Hochberg: a NaN p-value is read as 'no evidence' (ordered last, never rejected); cases whose threshold comparison is within f64 rounding of equality are not judged (count in outcomes).".into());
+    c.assumptions.push("Normal-tail reference is the platform libm erfc (self-tested against a table and a 2000-level continued fraction).".into());
     c.finish();
 }
